@@ -24,6 +24,7 @@ import (
 	"time"
 
 	"verifsim/core"
+	"verifsim/yieldinst"
 )
 
 type propInfo struct {
@@ -39,6 +40,7 @@ type propInfo struct {
 	Procs         int               `json:"procs"`
 	Workers       int               `json:"workers"`
 	RunTimeoutSec int               `json:"run_timeout_sec"`
+	SyncYields    bool              `json:"sync_yields"`
 	Phases        int               `json:"phases"`
 	Assumptions   []string          `json:"assumptions"`
 	Components    map[string]string `json:"components"`
@@ -129,7 +131,31 @@ func main() {
 	bin := buildWorker(false)
 	info := workerInfo(bin, id)
 	var raceBin string
-	if info.Race {
+	syncNote := ""
+	if info.SyncYields {
+		// the property's worlds run on a scratch copy of the repository in which the library's
+		// synchronisation operations are scheduling points (sim/yieldinst); when the rewritten copy
+		// does not build, the unmodified tree is used and the evidence says so
+		src := filepath.Join(buildDir, "yieldsrc")
+		st, err := yieldinst.Instrument(repoDir, src, "github.com/evanoberholster/imagemeta")
+		if err == nil {
+			var b2, r2 string
+			b2, err = buildWorkerFrom(false, src, "verif,verifyield", "simworker-sync")
+			if err == nil && info.Race {
+				r2, err = buildWorkerFrom(true, src, "verif,verifyield", "simworker-sync-race")
+			}
+			if err == nil {
+				bin, raceBin = b2, r2
+				syncNote = fmt.Sprintf("instrumented copy: %d files, %d scheduling points at synchronisation operations, %d lock acquisitions, %d once calls", st.Files, st.Yields, st.Locks, st.Onces)
+				say("simctl: %s", syncNote)
+			}
+		}
+		if err != nil {
+			syncNote = "instrumented copy unavailable (" + firstLine(err.Error()) + "): scheduling points at device events only"
+			say("NOTE %s", syncNote)
+		}
+	}
+	if info.Race && raceBin == "" {
 		raceBin = buildWorker(true)
 	}
 	kf := loadFindings(filepath.Join(verifDir, "known_findings.txt"))
@@ -146,7 +172,10 @@ func main() {
 		os.Exit(doReplay(bin, raceBin, info, replay, tier, kf))
 	}
 
-	ck := &checker{id: id, tier: tier, seed: seed, bin: bin, raceBin: raceBin, info: info, kf: kf,
+	if syncNote != "" {
+		syncNote = "; " + syncNote
+	}
+	ck := &checker{id: id, tier: tier, seed: seed, bin: bin, raceBin: raceBin, syncNote: syncNote, info: info, kf: kf,
 		stats: core.NewStats(), viol: map[string]*core.ReplayFile{}, violCount: map[string]int{}}
 	ck.workers = 16
 	if info.Workers > 0 {
@@ -204,14 +233,39 @@ func goEnv() []string {
 }
 
 func buildWorker(race bool) string {
+	name := "simworker"
+	if race {
+		name = "simworker-race"
+	}
+	out, err := buildWorkerFrom(race, repoDir, "verif", name)
+	if err != nil {
+		say("%s", err.Error())
+		die2("worker build failed (race=%v)", race)
+	}
+	return out
+}
+
+func firstLine(s string) string {
+	s = strings.TrimSpace(s)
+	if i := strings.IndexByte(s, '\n'); i >= 0 {
+		s = s[:i]
+	}
+	if len(s) > 200 {
+		s = s[:200]
+	}
+	return s
+}
+
+// buildWorkerFrom builds the worker against the library source tree src with the given build tags.
+func buildWorkerFrom(race bool, src, tags, name string) (string, error) {
 	simDir := filepath.Join(verifDir, "sim")
 	modSrc, err := os.ReadFile(filepath.Join(simDir, "go.mod"))
 	if err != nil {
 		die2("read go.mod: %v", err)
 	}
 	re := regexp.MustCompile(`(?m)^replace github.com/evanoberholster/imagemeta => .*$`)
-	mod := re.ReplaceAll(modSrc, []byte("replace github.com/evanoberholster/imagemeta => "+repoDir))
-	modPath := filepath.Join(buildDir, "go.mod")
+	mod := re.ReplaceAll(modSrc, []byte("replace github.com/evanoberholster/imagemeta => "+src))
+	modPath := filepath.Join(buildDir, name+".mod")
 	if err := os.WriteFile(modPath, mod, 0o644); err != nil {
 		die2("write modfile: %v", err)
 	}
@@ -219,14 +273,13 @@ func buildWorker(race bool) string {
 	if err != nil {
 		die2("read repo go.sum: %v", err)
 	}
-	os.WriteFile(filepath.Join(buildDir, "go.sum"), sum, 0o644)
-	out := filepath.Join(buildDir, "simworker")
-	args := []string{"build", "-modfile=" + modPath, "-tags", "verif", "-o", out}
+	os.WriteFile(filepath.Join(buildDir, name+".sum"), sum, 0o644)
+	out := filepath.Join(buildDir, name)
+	args := []string{"build"}
 	if race {
-		out = filepath.Join(buildDir, "simworker-race")
-		args = []string{"build", "-race", "-modfile=" + modPath, "-tags", "verif", "-o", out}
+		args = append(args, "-race")
 	}
-	args = append(args, "./cmd/simworker")
+	args = append(args, "-modfile="+modPath, "-tags", tags, "-o", out, "./cmd/simworker")
 	cmd := exec.Command("go", args...)
 	cmd.Dir = simDir
 	cmd.Env = goEnv()
@@ -235,11 +288,10 @@ func buildWorker(race bool) string {
 	cmd.Stderr = &buf
 	t0 := time.Now()
 	if err := cmd.Run(); err != nil {
-		say("%s", buf.String())
-		die2("worker build failed (race=%v): %v", race, err)
+		return "", fmt.Errorf("%s\n%v", buf.String(), err)
 	}
-	say("simctl: built worker (race=%v) from %s in %.1fs", race, repoDir, time.Since(t0).Seconds())
-	return out
+	say("simctl: built worker %s (race=%v) from %s in %.1fs", name, race, src, time.Since(t0).Seconds())
+	return out, nil
 }
 
 func workerInfo(bin, id string) *propInfo {
@@ -327,6 +379,7 @@ type checker struct {
 	seed       uint64
 	bin        string
 	raceBin    string
+	syncNote   string // how the library was instrumented for scheduling points (C05)
 	info       *propInfo
 	kf         []finding
 	workers    int
@@ -681,6 +734,10 @@ func laneSize(m map[string][]uint64) int {
 // soloRun executes one case in a fresh process and returns its outcome (nil if the process died
 // or timed out), plus how it ended.
 func (ck *checker) soloRun(cs *core.Case, replayPath string, timeout time.Duration, race bool, procs int) (out *core.Outcome, lanes map[string][]uint64, ended string, stderrTail string) {
+	return ck.soloRunEnv(cs, replayPath, timeout, race, procs, nil)
+}
+
+func (ck *checker) soloRunEnv(cs *core.Case, replayPath string, timeout time.Duration, race bool, procs int, extraEnv []string) (out *core.Outcome, lanes map[string][]uint64, ended string, stderrTail string) {
 	bin := ck.bin
 	if race {
 		bin = ck.raceBin
@@ -701,6 +758,7 @@ func (ck *checker) soloRun(cs *core.Case, replayPath string, timeout time.Durati
 	cmd := exec.Command(bin, args...)
 	tag := fmt.Sprintf("solo-%d", time.Now().UnixNano())
 	cmd.Env = ck.workerEnv(race, procs, tag)
+	cmd.Env = append(cmd.Env, extraEnv...)
 	// fd 1 and fd 2 of every worker are regular files owned by the orchestrator (C15 attributes
 	// bytes printed by the library to the exact operation by their sizes)
 	soPath, sePath := filepath.Join(buildDir, tag+".stdout"), filepath.Join(buildDir, tag+".stderr")
@@ -727,7 +785,7 @@ func (ck *checker) soloRun(cs *core.Case, replayPath string, timeout time.Durati
 		syscall.Kill(-cmd.Process.Pid, syscall.SIGQUIT)
 		time.AfterFunc(3*time.Second, func() { syscall.Kill(-cmd.Process.Pid, syscall.SIGKILL) })
 	})
-	var outLine, hangSite string
+	var outLine, hangSite, blockedIn string
 	sc := bufio.NewScanner(pr)
 	sc.Buffer(make([]byte, 1<<20), 64<<20)
 	for sc.Scan() {
@@ -737,6 +795,9 @@ func (ck *checker) soloRun(cs *core.Case, replayPath string, timeout time.Durati
 		}
 		if strings.HasPrefix(ln, "H ") {
 			hangSite = ln[2:]
+		}
+		if strings.HasPrefix(ln, "W ") {
+			blockedIn = ln[2:]
 		}
 	}
 	pr.Close()
@@ -757,6 +818,9 @@ func (ck *checker) soloRun(cs *core.Case, replayPath string, timeout time.Durati
 		}
 	}
 	if hangSite != "" {
+		if blockedIn != "" {
+			tail = "BLOCKED " + blockedIn + "\n" + tail
+		}
 		return nil, nil, "timeout", "HANGSITE " + hangSite + "\n" + tail
 	}
 	if fired {
@@ -872,6 +936,9 @@ func (ck *checker) confirmDeath(cs core.Case, reason string, spec workerSpec) {
 			v.Prop = "C02"
 			ck.addViolation(rf)
 		} else if ck.info.HangKind != "" {
+			if strings.Contains(tail, "\nBLOCKED ") && ck.stallIsArtefact(&cs, timeout, spec.race) {
+				return
+			}
 			v.Prop, v.Kind = ck.id, ck.info.HangKind
 			ck.addViolation(rf)
 		} else {
@@ -894,6 +961,26 @@ func (ck *checker) confirmDeath(cs core.Case, reason string, spec workerSpec) {
 		}
 		ck.addViolation(&core.ReplayFile{Case: full, Violation: v, Desc: desc.text, Note: "worker process killed; confirmed by solo re-execution (" + ended + ")"})
 	}
+}
+
+// stallIsArtefact is consulted when the stalled run's own stack samples show a task sitting in a
+// blocking primitive the whole time (tasks that spin - a livelock, a corrupted shared reader, a
+// lock cycle between intercepted mutexes - are running, and are reported without further ado).
+// It re-executes a run that does not finish under the serialising scheduler with
+// the scheduler switched off (the tasks run freely, in parallel, on four processors). A run that
+// finishes that way did not deadlock or spin: one of its tasks blocked on a primitive the
+// simulator does not intercept (a channel, a condition variable, a WaitGroup shared between
+// calls) while it held the baton, which is a limit of the simulator and not a defect of the
+// library. It is recorded as a note and not reported. A genuine deadlock that needs this very
+// interleaving is missed that way; a false alarm is not raised.
+func (ck *checker) stallIsArtefact(cs *core.Case, timeout time.Duration, race bool) bool {
+	_, _, ended, _ := ck.soloRunEnv(cs, "", timeout, race, 4, []string{"VERIF_FREERUN=1"})
+	ck.mu.Lock()
+	if ended == "returned" {
+		ck.hangNotes = append(ck.hangNotes, fmt.Sprintf("run %s/%d stalls under the serialising scheduler but finishes when its tasks run freely in parallel: a task blocked with the baton in hand on a primitive the simulator does not intercept (simulator artefact, not reported)", cs.Campaign, cs.Run))
+	}
+	ck.mu.Unlock()
+	return ended == "returned"
 }
 
 var reRaceFn = regexp.MustCompile(`(?m)^\s+github\.com/evanoberholster/imagemeta([^\s(]*(?:\([^)]*\))?[^\s(]*)\(`)
@@ -1188,7 +1275,7 @@ func (ck *checker) writeEvidence(wall time.Duration, nViol int, knownSeen []stri
 		"enumerated_complete":               enumComplete,
 		"all_enumerated_campaigns_complete": allComplete,
 		"components": map[string]string{
-			"real":      "all of github.com/evanoberholster/imagemeta (built from the working tree with -tags verif), bufio, zerolog, sync.Pool",
+			"real":      "all of github.com/evanoberholster/imagemeta (built from the working tree with -tags verif), bufio, zerolog, sync.Pool" + ck.syncNote,
 			"simulated": "reader/seeker/readerAt device, log sink, callback actors, generic image actor, task scheduler",
 			"stub":      "none",
 		},
